@@ -256,13 +256,21 @@ def analyse_config_class(repo: Repo, c: Cls) -> ConfigClass:
         for n in ast.walk(f.node):
             key = None
             dflt = None
-            if isinstance(n, ast.Call) and isinstance(n.func, ast.Attribute) and n.func.attr in ("get", "pop") and n.args and isinstance(n.args[0], ast.Constant) and isinstance(n.args[0].value, str):
-                key = n.args[0].value
+            def skey(e):
+                """a string key written in place or through a module/class constant (`_MAX_DEPTH_KEY`)"""
+                if isinstance(e, ast.Constant):
+                    return e.value if isinstance(e.value, str) else None
+                if isinstance(e, (ast.Name, ast.Attribute)):
+                    v = repo.fold(f.module, e, c) if isinstance(e, ast.Attribute) else repo.fold(f.module, e)
+                    return v if isinstance(v, str) else None
+                return None
+            if isinstance(n, ast.Call) and isinstance(n.func, ast.Attribute) and n.func.attr in ("get", "pop") and n.args and skey(n.args[0]) is not None:
+                key = skey(n.args[0])
                 dflt = n.args[1] if len(n.args) > 1 else None
-            elif isinstance(n, ast.Subscript) and isinstance(n.slice, ast.Constant) and isinstance(n.slice.value, str):
-                key = n.slice.value
-            elif isinstance(n, ast.Compare) and len(n.ops) == 1 and isinstance(n.ops[0], ast.In) and isinstance(n.left, ast.Constant) and isinstance(n.left.value, str):
-                key = n.left.value
+            elif isinstance(n, ast.Subscript) and skey(n.slice) is not None and not (isinstance(n.slice, ast.Name) and n.slice.id in ("language", "lang")):
+                key = skey(n.slice)
+            elif isinstance(n, ast.Compare) and len(n.ops) == 1 and isinstance(n.ops[0], ast.In) and skey(n.left) is not None and not (isinstance(n.left, ast.Name) and n.left.id in ("language", "lang")):
+                key = skey(n.left)
             if key is None and isinstance(n, ast.Call) and isinstance(n.func, ast.Name):
                 # helper(config, "key", "override_key", DEFAULT): constants bound to a parameter the helper uses as a dict key
                 g = repo.funcs.get(f"{c.module.name}.{n.func.id}")
